@@ -591,6 +591,15 @@ def gen_calls(rng, tier):
                         c = Call(getattr(np, bname), 'outer', bufs, ins, outs)
                         yield c, {'kind': kind, 'ufunc': bname, 'method': 'outer', 'second': sec, 'out': outk,
                                   'shapes': [shape, shape2]}, (kind, bname, 'outer', sec, outk, len(shape), len(shape2))
+            for uf in (np.less, np.logical_and, np.arctan2):
+                for sec in ('elem', 'self'):
+                    bufs = []
+                    shape = rand_shape(rng, rng.choice([1, 1, 2]))
+                    x = mk_elem(rng, kind, shape, bufs, 'float64')
+                    ins = [x, mk_elem(rng, kind, rand_shape(rng, 1), bufs, 'float64')] if sec == 'elem' else [x, x]
+                    c = Call(uf, 'outer', bufs, ins, None)
+                    yield c, {'kind': kind, 'ufunc': uf.__name__, 'method': 'outer', 'second': sec, 'out': 'none',
+                              'shape': shape}, (kind, uf.__name__, 'outer', sec, len(shape))
             # ---- at
             for uname in list(BOPS) + list(UOPS):
                 for ik in ['distinct', 'repeated', 'negative', 'oob', 'empty']:
@@ -678,8 +687,607 @@ def correspondence(rng, tier):
     return [cs]
 
 
+# ------------------------------------------------------------------ probes
+# The property itself, evaluated on the real objects against NumPy on the
+# underlying arrays.  A probe is described by a JSON-able spec so that the
+# replay is `probe_eval(spec)`.
+
+def build_space(sd):
+    import odl
+    kind = sd['kind']
+    if kind == 'pow':
+        return build_space(sd['base']) ** sd['n']
+    kw = {}
+    w = sd.get('weighting')
+    if w is not None:
+        kw['weighting'] = np.array(w, dtype=sd.get('wdtype', 'float64')) if isinstance(w, list) else w
+    if sd.get('exponent') is not None:
+        kw['exponent'] = sd['exponent']
+    if kind == 'tens':
+        return odl.tensor_space(tuple(sd['shape']), dtype=sd['dtype'], **kw)
+    shape = tuple(sd['shape'])
+    return odl.uniform_discr([0.0] * len(shape), [float(n) * c for n, c in zip(shape, sd['cells'])], shape,
+                             dtype=sd['dtype'], **kw)
+
+
+def _operand(od, space, raw):
+    """('self', data) element of the space | ('arr', data, dtype) | ('scal', v)"""
+    if od[0] == 'scal':
+        return od[1]
+    if od[0] == 'arr':
+        return np.array(od[1], dtype=od[2])
+    arr = np.array(od[1], dtype=space.dtype)
+    return arr if raw else space.element(arr)
+
+
+DELIBERATE = 'deliberate'
+
+
+def _expected_rejection(spec):
+    """inputs the code rejects on purpose, with the error class it documents"""
+    k = spec['space']['kind']
+    if k == 'disc':
+        if spec['method'] == 'reduce' and spec.get('kwargs', {}).get('keepdims'):
+            return ValueError
+        if spec['method'] == 'reduceat':
+            return ValueError
+        if spec['method'] == 'outer' and any(o[0] != 'self' for o in spec['ins']):
+            return TypeError
+    return None
+
+
+def _same(a, b):
+    a, b = np.asarray(a), np.asarray(b)
+    return a.shape == b.shape and bool(np.array_equal(a, b, equal_nan=(a.dtype.kind in 'fc' and b.dtype.kind in 'fc')))
+
+
+def probe_eval(spec):
+    """returns (ok, category, observed, expected); category names what failed"""
+    import odl
+    space = build_space(spec['space'])
+    uf = getattr(np, spec['ufunc'])
+    method = spec['method']
+    kw = dict(spec.get('kwargs', {}))
+    if isinstance(kw.get('axis'), list):
+        kw['axis'] = tuple(kw['axis'])
+
+    def run(raw):
+        ins = [_operand(o, space, raw) for o in spec['ins']]
+        out = None
+        ok_ = spec.get('out')
+        if ok_ is not None:
+            oshape, odt = tuple(ok_['shape']), ok_['dtype']
+            if raw or ok_['kind'] == 'arr':
+                out = np.full(oshape, 7, dtype=odt)
+            else:
+                osp = build_space(dict(spec['space'], shape=list(oshape), dtype=odt, weighting=None,
+                                       cells=[1.0] * len(oshape))) \
+                    if spec['space']['kind'] != 'pow' else space
+                if ok_['kind'] == 'tensor' and spec['space']['kind'] == 'disc':
+                    osp = osp.tspace
+                out = osp.element(np.full(oshape, 7, dtype=odt))
+        f = uf if method == '__call__' else getattr(uf, method)
+        args = list(ins)
+        if method in ('at', 'reduceat'):
+            args = [ins[0], list(spec['idx'])] + ins[1:]
+        k2 = dict(kw)
+        if out is not None:
+            k2['out'] = out
+        with np.errstate(all='ignore'):
+            r = f(*args, **k2)
+        return r, ins, out
+    try:
+        er, eins, eout = run(True)
+        eerr = None
+    except Exception as e:      # noqa
+        eerr = e
+    rej = _expected_rejection(spec)
+    try:
+        orr, oins, oout = run(False)
+        oerr = None
+    except Exception as e:      # noqa
+        oerr = e
+    if rej is not None and eerr is None:
+        good = oerr is not None and isinstance(oerr, rej)
+        return good, DELIBERATE, repr(oerr), 'raises ' + rej.__name__
+    if eerr is not None:
+        if oerr is None:
+            return False, 'accepts', 'returned', 'NumPy raises ' + type(eerr).__name__
+        return True, '', None, None
+    if oerr is not None:
+        return False, 'raises', '%s: %s' % (type(oerr).__name__, str(oerr)[:120]), 'NumPy returns'
+    ers = list(er) if isinstance(er, tuple) else [er]
+    ors = list(orr) if isinstance(orr, tuple) else [orr]
+    if len(ers) != len(ors):
+        return False, 'arity', len(ors), len(ers)
+    elem_type = type(space.element())
+    for e, o in zip(ers, ors):
+        if e is None:
+            if o is not None:
+                return False, 'kind', type(o).__name__, 'None'
+            continue
+        if spec.get('out') is not None:
+            if o is not oout:
+                return False, 'out-identity', type(o).__name__, 'the given out object'
+            if not _same(np.asarray(oout), np.asarray(eout)):
+                return False, 'out-contents', np.asarray(oout).tolist(), np.asarray(eout).tolist()
+            continue
+        if np.ndim(e) == 0:
+            if not (np.isscalar(o) or (isinstance(o, np.ndarray) and o.ndim == 0)):
+                return False, 'kind', type(o).__name__, 'scalar'
+            if not _same(o, e):
+                return False, 'values', o, e
+            continue
+        if not isinstance(o, elem_type):
+            return False, 'kind', type(o).__name__, elem_type.__name__
+        oa = np.asarray(o)
+        if oa.shape != e.shape or tuple(o.shape) != e.shape:
+            return False, 'shape', oa.shape, e.shape
+        if not _same(oa, e):
+            return False, 'values', oa.tolist(), e.tolist()
+        if oa.dtype != e.dtype or o.dtype != e.dtype:
+            return False, 'dtype', str(o.dtype), str(e.dtype)
+    # inputs: same final contents as on the raw side (only out / at's first operand change)
+    for a, b in zip(oins, eins):
+        if not np.isscalar(a) and not _same(np.asarray(a), np.asarray(b)):
+            return False, 'inputs-changed', np.asarray(a).tolist(), np.asarray(b).tolist()
+    return True, '', None, None
+
+
+def probe_key(spec, cat):
+    """key of a failing probe: the recorded findings get their own precise keys"""
+    sk = spec['space']['kind']
+    m = {'__call__': 'call'}.get(spec['method'], spec['method'])
+    kw = spec.get('kwargs', {})
+    if cat == DELIBERATE:
+        return '%s-%s-documented-rejection' % (sk, m)
+    if sk in ('tens', 'disc') and m == 'call' and cat == 'raises' and spec.get('grow'):
+        return {'tens': 'tensor', 'disc': 'discr'}[sk] + '-call-broadcast-grow'
+    if sk in ('tens', 'disc') and cat == 'raises' and kw.get('dtype') and isinstance(spec['space'].get('weighting'), list) \
+            and not np.can_cast(spec['space'].get('wdtype', 'float64'), kw['dtype']):
+        return 'tensor-dtype-kw-array-weighting'
+    if sk == 'disc' and m == 'reduce' and cat == 'raises':
+        ax = kw.get('axis')
+        axs = ax if isinstance(ax, (list, tuple)) else [ax]
+        if ax is not None and any(a < 0 for a in axs):
+            return 'discr-reduce-negative-axis'
+    if sk == 'disc' and m == 'outer' and cat == 'raises' and spec['ufunc'] in (
+            'logical_and', 'logical_or', 'logical_xor', 'less', 'less_equal', 'greater', 'greater_equal', 'equal',
+            'not_equal') and all(o[0] == 'self' for o in spec['ins']):
+        return 'discr-outer-bool-result'
+    if sk == 'pow':
+        if m == 'call' and cat == 'raises' and spec.get('grow'):
+            return 'pspace-call-broadcast-grow'
+        if spec.get('out') is not None and spec['out']['kind'] == 'elem' and cat == 'raises':
+            return 'pspace-out-element-unsupported'
+        if cat == 'dtype':
+            return 'pspace-result-dtype-forced-to-space-dtype'
+        if cat == 'values' and np.dtype(spec['space']['base']['dtype']).kind in 'iub':
+            return 'pspace-integer-space-truncates-float-results'
+        if m in ('reduce', 'reduceat', 'outer', 'at') and cat in ('raises', 'kind', 'shape'):
+            return 'pspace-%s-not-wrapped' % m
+    if cat == 'accepts' and spec.get('out') is not None and kw.get('dtype'):
+        return '%s-out-dtype-kw-skips-casting-check' % {'tens': 'tensor', 'disc': 'discr', 'pow': 'pspace'}[sk]
+    return '%s-%s-%s-%s' % (sk, spec['ufunc'], m, cat)
+
+
+def mk_probe(spec):
+    try:
+        ok, cat, obs, exp = probe_eval(spec)
+    except Exception as e:      # noqa
+        ok, cat, obs, exp = False, 'probe-crash', repr(e), None
+    rp = ("import sys\nsys.path.insert(0, %r)\nfrom harness.c17 import probe_eval\nspec = %r\n"
+          "ok, category, observed, expected = probe_eval(spec)\n" % (C.VERIF, spec))
+    what = ('np.%s%s on %s elements %s: same numbers / kind / shape / dtype / out as NumPy on the underlying arrays'
+            % (spec['ufunc'], '' if spec['method'] == '__call__' else '.' + spec['method'],
+               spec['space']['kind'], {k: v for k, v in spec.items() if k in ('kwargs', 'out', 'idx')}))
+    return C.Probe(bool(ok), probe_key(spec, cat) if not ok else 'ok', what, rp, {'category': cat, 'observed': obs, 'expected': exp})
+
+
+FLOAT_UNARY = ['sin', 'cos', 'tan', 'arcsin', 'arccos', 'arctan', 'sinh', 'cosh', 'tanh', 'arcsinh', 'arccosh',
+               'arctanh', 'exp', 'exp2', 'expm1', 'log', 'log2', 'log10', 'log1p', 'sqrt', 'cbrt', 'square',
+               'reciprocal', 'negative', 'positive', 'absolute', 'fabs', 'sign', 'rint', 'floor', 'ceil', 'trunc',
+               'deg2rad', 'rad2deg', 'isfinite', 'isinf', 'isnan', 'signbit', 'logical_not', 'conj', 'spacing']
+FLOAT_BINARY = ['add', 'subtract', 'multiply', 'true_divide', 'floor_divide', 'power', 'remainder', 'fmod',
+                'maximum', 'minimum', 'fmax', 'fmin', 'hypot', 'arctan2', 'copysign', 'nextafter', 'logaddexp',
+                'logaddexp2', 'heaviside', 'greater', 'greater_equal', 'less', 'less_equal', 'equal', 'not_equal',
+                'logical_and', 'logical_or', 'logical_xor', 'float_power', 'ldexp']
+INT_UNARY = ['negative', 'positive', 'absolute', 'invert', 'sign', 'square', 'sin', 'sqrt', 'isfinite', 'logical_not']
+INT_BINARY = ['add', 'subtract', 'multiply', 'floor_divide', 'true_divide', 'remainder', 'bitwise_and', 'bitwise_or',
+              'bitwise_xor', 'left_shift', 'right_shift', 'gcd', 'lcm', 'maximum', 'minimum', 'less', 'equal', 'power']
+TWO_OUT = ['modf', 'frexp', 'divmod']
+COMPLEX_UNARY = ['negative', 'absolute', 'conj', 'exp', 'sin', 'square', 'sqrt', 'isfinite', 'reciprocal']
+COMPLEX_BINARY = ['add', 'subtract', 'multiply', 'true_divide', 'equal', 'power']
+REDUCIBLE = ['add', 'multiply', 'maximum', 'minimum', 'subtract', 'logical_and', 'logical_or', 'fmax', 'hypot',
+             'bitwise_or', 'true_divide']
+
+
+def rand_space_descr(rng, kind, dtype, ndim=None):
+    if kind == 'pow':
+        return {'kind': 'pow', 'n': rng.randint(1, 3),
+                'base': rand_space_descr(rng, rng.choice(['tens', 'tens', 'disc']), dtype, ndim or rng.choice([1, 1, 2]))}
+    shape = list(rand_shape(rng, ndim))
+    sd = {'kind': kind, 'shape': shape, 'dtype': dtype}
+    if kind == 'disc':
+        sd['cells'] = [rng.choice([1.0, 0.5, 2.0]) for _ in shape]
+    if np.dtype(dtype).kind in 'fc':
+        c = rng.random()
+        rdt = {'float32': 'float32', 'complex64': 'float32'}.get(dtype, 'float64')
+        if c < 0.2:
+            sd['weighting'] = float(rng.choice([2.0, 0.5]))
+        elif c < 0.35 and kind == 'tens':
+            sd['weighting'] = np.array([rng.randint(1, 4) for _ in range(int(np.prod(shape)))],
+                                       dtype=float).reshape(shape).tolist()
+            sd['wdtype'] = rdt
+        elif c < 0.45 and kind == 'tens':
+            sd['exponent'] = rng.choice([1.0, float('inf')])
+    return sd
+
+
+def space_shape(sd):
+    if sd['kind'] == 'pow':
+        return [sd['n']] + space_shape(sd['base'])
+    return list(sd['shape'])
+
+
+def rand_data(rng, shape, dtype, positive=False):
+    n = int(np.prod(shape))
+    k = np.dtype(dtype).kind
+    if k in 'iu':
+        vals = [rng.randint(1 if positive else -4, 5) for _ in range(n)]
+    elif k == 'b':
+        vals = [bool(rng.randint(0, 1)) for _ in range(n)]
+    elif k == 'c':
+        vals = [complex(rng.randint(-3, 3), rng.randint(-3, 3)) for _ in range(n)]
+        vals = [repr(v) for v in vals]
+        return np.array([complex(v) for v in vals]).reshape(shape).tolist() if False else \
+            np.array([complex(v) for v in vals]).reshape(shape).tolist()
+    else:
+        vals = [rng.choice([0.5, 1.0, 1.5, 2.0, 3.0, 0.25]) if positive else
+                rng.choice([-2.5, -1.0, -0.5, 0.0, 0.25, 0.5, 1.0, 1.5, 2.0, 3.0]) for _ in range(n)]
+    return np.array(vals).reshape(shape).tolist()
+
+
+def gen_probe_specs(rng, tier):
+    reps = 1 if tier == 'quick' else 5
+    kinds = ['tens', 'disc', 'pow']
+    for _ in range(reps):
+        for kind in kinds:
+            for dtype, una, bina in [('float64', FLOAT_UNARY, FLOAT_BINARY), ('float32', FLOAT_UNARY, FLOAT_BINARY),
+                                     ('int64', INT_UNARY, INT_BINARY), ('int32', INT_UNARY, INT_BINARY),
+                                     ('complex128', COMPLEX_UNARY, COMPLEX_BINARY)]:
+                if tier == 'quick' and dtype in ('float32', 'int32') and kind != 'tens':
+                    continue
+                # __call__ unary / binary / two outputs
+                for name in una + bina + (TWO_OUT if np.dtype(dtype).kind == 'f' else []):
+                    uf = getattr(np, name)
+                    sd = rand_space_descr(rng, kind, dtype)
+                    shape = space_shape(sd)
+                    ins = [('self', rand_data(rng, shape, dtype))]
+                    grow = False
+                    if uf.nin == 2:
+                        c = rng.choice(['self', 'self', 'arr', 'arr-first', 'scal', 'row', 'grow'])
+                        pos = name in ('power', 'float_power', 'left_shift', 'right_shift', 'ldexp', 'floor_divide',
+                                       'remainder', 'fmod', 'divmod', 'true_divide', 'gcd', 'lcm')
+                        sdt = 'int64' if name == 'ldexp' else dtype
+                        if c == 'self' and name != 'ldexp':
+                            ins.append(('self', rand_data(rng, shape, dtype, pos)))
+                        elif c == 'scal' or (name == 'ldexp' and c == 'self'):
+                            ins.append(('scal', 2 if np.dtype(sdt).kind in 'iu' else 2.0))
+                        elif c == 'row':
+                            ins.append(('arr', rand_data(rng, shape[-1:], sdt, pos), sdt))
+                        elif c == 'grow':
+                            ins.append(('arr', rand_data(rng, [2] + shape, sdt, pos), sdt))
+                            grow = True
+                        else:
+                            ins.append(('arr', rand_data(rng, shape, sdt, pos), sdt))
+                            if c == 'arr-first' and name != 'ldexp':
+                                ins.reverse()
+                    spec = {'space': sd, 'ufunc': name, 'method': '__call__', 'ins': ins, 'kwargs': {}}
+                    if grow:
+                        spec['grow'] = True
+                    o = rng.choice(['none', 'none', 'elem', 'arr', 'tensor', 'dtype']) if uf.nout == 1 and not grow else 'none'
+                    if o in ('elem', 'arr', 'tensor'):
+                        try:
+                            with np.errstate(all='ignore'):
+                                rdt = uf(*[np.asarray(_operand(i, None, True) if i[0] != 'self' else np.array(i[1], dtype=dtype))
+                                           for i in ins]).dtype.name
+                        except Exception:
+                            rdt = None
+                        if rdt is not None and (o != 'tensor' or kind == 'disc'):
+                            spec['out'] = {'kind': o, 'shape': shape, 'dtype': rdt}
+                    elif o == 'dtype' and np.dtype(dtype).kind == 'f' and name not in ('ldexp',):
+                        spec['kwargs'] = {'dtype': rng.choice(['float32', 'float64'])}
+                    yield spec
+                # reduce / accumulate / outer / at / reduceat
+                for name in [n for n in REDUCIBLE if n in bina or n in ('add', 'multiply')]:
+                    if np.dtype(dtype).kind == 'c' and name in ('maximum', 'minimum', 'fmax', 'hypot', 'logical_and', 'logical_or', 'bitwise_or'):
+                        continue
+                    if np.dtype(dtype).kind in 'fc' and name == 'bitwise_or':
+                        continue
+                    if np.dtype(dtype).kind in 'iu' and name in ('hypot', 'fmax'):
+                        continue
+                    for method in ['reduce', 'accumulate', 'outer', 'at', 'reduceat']:
+                        sd = rand_space_descr(rng, kind, dtype)
+                        shape = space_shape(sd)
+                        nd = len(shape)
+                        ins = [('self', rand_data(rng, shape, dtype, name == 'true_divide'))]
+                        spec = {'space': sd, 'ufunc': name, 'method': method, 'ins': ins, 'kwargs': {}}
+                        if method == 'reduce':
+                            a = rng.choice(['absent', 'none', 'int', 'neg', 'tuple', 'keepdims', 'dtype'])
+                            if a == 'none':
+                                spec['kwargs']['axis'] = None
+                            elif a == 'int':
+                                spec['kwargs']['axis'] = rng.randrange(nd)
+                            elif a == 'neg':
+                                spec['kwargs']['axis'] = -rng.randint(1, nd)
+                            elif a == 'tuple':
+                                spec['kwargs']['axis'] = sorted(rng.sample(range(nd), rng.randint(1, nd)))
+                            elif a == 'keepdims':
+                                spec['kwargs']['keepdims'] = True
+                                spec['kwargs']['axis'] = rng.randrange(nd)
+                            elif a == 'dtype' and np.dtype(dtype).kind == 'f':
+                                spec['kwargs']['dtype'] = rng.choice(['float32', 'float64'])
+                        elif method == 'accumulate':
+                            if rng.random() < 0.6:
+                                spec['kwargs']['axis'] = rng.randrange(-nd, nd)
+                            if rng.random() < 0.3:
+                                spec['out'] = {'kind': rng.choice(['elem', 'arr']), 'shape': shape, 'dtype': dtype}
+                                if name in ('logical_and', 'logical_or', 'true_divide') and np.dtype(dtype).kind != 'f':
+                                    del spec['out']
+                                elif name in ('logical_and', 'logical_or'):
+                                    del spec['out']
+                        elif method == 'outer':
+                            c = rng.choice(['self', 'arr', 'scal'])
+                            if c == 'self':
+                                spec['ins'] = [ins[0], ('self', rand_data(rng, shape, dtype, name == 'true_divide'))]
+                            elif c == 'arr':
+                                spec['ins'] = [ins[0], ('arr', rand_data(rng, [2], dtype, name == 'true_divide'), dtype)]
+                            else:
+                                spec['ins'] = [ins[0], ('scal', 2 if np.dtype(dtype).kind in 'iu' else 2.0)]
+                        elif method == 'at':
+                            n0 = shape[0]
+                            spec['idx'] = [rng.randrange(-n0, n0) for _ in range(rng.randint(0, 4))]
+                            spec['ins'] = [ins[0], ('scal', 2 if np.dtype(dtype).kind in 'iu' else 2.0)]
+                        else:
+                            ax = rng.randrange(nd)
+                            spec['kwargs']['axis'] = ax
+                            spec['idx'] = [rng.randrange(shape[ax]) for _ in range(rng.randint(1, 3))]
+                        yield spec
+
+
 def probes(rng, tier):
-    return []
+    out = []
+    for spec in gen_probe_specs(rng, tier):
+        out.append(mk_probe(spec))
+    out.extend(structural_probes(rng, tier))
+    return out
+
+
+def _flat_space_equal(a, b):
+    try:
+        return a == b
+    except Exception:
+        return False
+
+
+def legacy_eval(spec):
+    """x.ufuncs.<name>(args, out=...) against np.<name>(x, args, out=...) on the same elements"""
+    space = build_space(spec['space'])
+    name = spec['ufunc']
+
+    def run(legacy):
+        ins = [_operand(o, space, False) for o in spec['ins']]
+        x = ins[0]
+        kw = dict(spec.get('kwargs', {}))
+        out = None
+        ok_ = spec.get('out')
+        if ok_ is not None:
+            if ok_['kind'] == 'arr':
+                out = np.full(tuple(ok_['shape']), 7, dtype=ok_['dtype'])
+            elif ok_['kind'] == 'tensor':
+                out = space.tspace.astype(ok_['dtype']).element(np.full(tuple(ok_['shape']), 7, dtype=ok_['dtype']))
+            else:
+                out = space.astype(ok_['dtype']).element(np.full(tuple(ok_['shape']), 7, dtype=ok_['dtype']))
+            kw['out'] = out
+        with np.errstate(all='ignore'):
+            if name in ('sum', 'prod', 'min', 'max'):
+                if legacy:
+                    r = getattr(x.ufuncs, name)(**kw)
+                else:
+                    uf = {'sum': np.add, 'prod': np.multiply, 'min': np.minimum, 'max': np.maximum}[name]
+                    kw.setdefault('axis', None)
+                    r = uf.reduce(x, **kw)
+            elif legacy:
+                r = getattr(x.ufuncs, name)(*ins[1:], **kw)
+            else:
+                r = getattr(np, name)(*ins, **kw)
+        return r, out
+    if spec['space']['kind'] == 'pow' and spec.get('out') is not None:
+        # np.<ufunc>(x, out=<power-space element>) is itself unsupported (finding
+        # pspace-out-element-unsupported): the reference is NumPy on the underlying arrays
+        arrs = [np.asarray(_operand(o, space, True)) if o[0] != 'scal' else o[1] for o in spec['ins']]
+        try:
+            with np.errstate(all='ignore'):
+                ref = getattr(np, name)(*arrs, **spec.get('kwargs', {}))
+        except Exception:
+            ref = None
+        try:
+            lr, lout = run(True)
+        except Exception as e:      # noqa
+            return (ref is None), 'raises', '%s: %s' % (type(e).__name__, str(e)[:120]), 'NumPy on arrays returns'
+        if ref is None:
+            return False, 'accepts', 'legacy returned', 'NumPy on arrays raises'
+        if lr is not lout:
+            return False, 'out-identity', type(lr).__name__, 'the given out'
+        if not _same(np.asarray(lout), ref):
+            return False, 'out-contents', np.asarray(lout).tolist(), np.asarray(ref).tolist()
+        return True, '', None, None
+    try:
+        er, eout = run(False)
+    except Exception as e:      # noqa
+        try:
+            run(True)
+        except Exception:
+            return True, '', None, None
+        return False, 'accepts', 'legacy returned', 'np call raises ' + type(e).__name__
+    try:
+        lr, lout = run(True)
+    except Exception as e:      # noqa
+        return False, 'raises', '%s: %s' % (type(e).__name__, str(e)[:120]), 'np call returns'
+    ers = list(er) if isinstance(er, tuple) else [er]
+    lrs = list(lr) if isinstance(lr, tuple) else [lr]
+    if len(ers) != len(lrs):
+        return False, 'arity', len(lrs), len(ers)
+    for e, l in zip(ers, lrs):
+        if spec.get('out') is not None:
+            if l is not lout:
+                return False, 'out-identity', type(l).__name__, 'the given out'
+            if not _same(np.asarray(lout), np.asarray(eout)):
+                return False, 'out-contents', np.asarray(lout).tolist(), np.asarray(eout).tolist()
+            continue
+        if type(e) is not type(l) and not (np.isscalar(e) and np.isscalar(l)):
+            return False, 'kind', type(l).__name__, type(e).__name__
+        if hasattr(e, 'space') and not _flat_space_equal(e.space, l.space):
+            return False, 'space', repr(l.space), repr(e.space)
+        if not _same(np.asarray(l), np.asarray(e)):
+            return False, 'values', np.asarray(l).tolist(), np.asarray(e).tolist()
+    return True, '', None, None
+
+
+def legacy_key(spec, cat):
+    sk = spec['space']['kind']
+    if sk == 'pow' and getattr(np, spec['ufunc'], None) is not None and getattr(np, spec['ufunc']).nout == 2 \
+            and cat == 'raises':
+        return 'legacy-pspace-two-output-ufuncs'
+    if sk == 'disc' and spec.get('out') is not None and spec['out']['kind'] == 'tensor' \
+            and cat in ('raises', 'out-identity') and getattr(np, spec['ufunc']).nin == 1:
+        return 'legacy-discr-unary-out-tensor'
+    if sk == 'pow' and cat == 'raises' and len(spec['ins']) == 2 and spec['ins'][1][0] == 'arr':
+        return 'legacy-pspace-binary-array-operand'
+    if sk == 'pow' and spec['ufunc'] in ('sum', 'prod', 'min', 'max') and cat == 'raises':
+        return 'legacy-pspace-reductions-vs-numpy'
+    return 'legacy-%s-%s-%s' % (sk, spec['ufunc'], cat)
+
+
+def mk_legacy_probe(spec):
+    try:
+        ok, cat, obs, exp = legacy_eval(spec)
+    except Exception as e:      # noqa
+        ok, cat, obs, exp = False, 'probe-crash', repr(e), None
+    rp = ("import sys\nsys.path.insert(0, %r)\nfrom harness.c17 import legacy_eval\nspec = %r\n"
+          "ok, category, observed, expected = legacy_eval(spec)\n" % (C.VERIF, spec))
+    what = 'x.ufuncs.%s(...) on %s elements agrees with the NumPy call %s' % (
+        spec['ufunc'], spec['space']['kind'], {k: v for k, v in spec.items() if k in ('kwargs', 'out')})
+    return C.Probe(bool(ok), legacy_key(spec, cat) if not ok else 'ok', what, rp,
+                   {'category': cat, 'observed': obs, 'expected': exp})
+
+
+def sharing_eval(spec):
+    """space.element(arr) shares memory with arr (matching dtype/shape), asarray round-trips"""
+    space = build_space(spec['space'])
+    shape = tuple(space_shape(spec['space']))
+    arr = np.array(spec['data'], dtype=spec['adtype']).reshape(shape if not spec.get('transposed') else shape[::-1])
+    if spec.get('transposed'):
+        arr = arr.T
+    before = arr.copy()
+    x = space.element(arr)
+    a = x.asarray()
+    if not _same(a, before.astype(space.dtype)):
+        return False, 'roundtrip', a.tolist(), before.tolist()
+    if not _same(np.asarray(x), a):
+        return False, 'np.asarray', None, None
+    match = np.dtype(spec['adtype']) == space.dtype
+    if spec['space']['kind'] == 'pow':
+        shares = all(np.shares_memory(arr, np.asarray(part)) for part in x) if match else True
+    else:
+        shares = bool(np.shares_memory(arr, a)) if match else True
+    if not shares:
+        return False, 'not-shared', None, None
+    if match and arr.size:
+        # a write through the array is seen through the element and vice versa
+        idx = tuple(0 for _ in shape)
+        arr[idx] = 9
+        if np.asarray(x)[idx] != 9:
+            return False, 'write-not-visible', None, None
+        x2 = space.element(arr)
+        if spec['space']['kind'] != 'pow':
+            x2.asarray()[idx] = 5
+            if arr[idx] != 5:
+                return False, 'write-back-not-visible', None, None
+    return True, '', None, None
+
+
+def structural_probes(rng, tier):
+    out = []
+    reps = 2 if tier == 'quick' else 8
+    # ---- sharing / round trip
+    for _ in range(reps):
+        for kind in ('tens', 'disc', 'pow'):
+            for dtype in ('float64', 'float32', 'int64', 'complex128'):
+                for adt in (dtype, 'int32'):
+                    sd = rand_space_descr(rng, kind, dtype)
+                    sd.pop('weighting', None)
+                    shape = space_shape(sd)
+                    spec = {'space': sd, 'adtype': adt, 'data': rand_data(rng, [int(np.prod(shape))], 'int32'),
+                            'transposed': bool(rng.random() < 0.3 and len(shape) == 2 and kind != 'pow')}
+                    try:
+                        ok, cat, obs, exp = sharing_eval(spec)
+                    except Exception as e:      # noqa
+                        ok, cat, obs, exp = False, 'crash', repr(e), None
+                    rp = ("import sys\nsys.path.insert(0, %r)\nfrom harness.c17 import sharing_eval\nspec = %r\n"
+                          "ok, category, observed, expected = sharing_eval(spec)\n" % (C.VERIF, spec))
+                    out.append(C.Probe(bool(ok), 'wrap-%s-%s' % (kind, cat), 'space.element(arr) shares memory with arr / '
+                                       'asarray round-trips (%s, %s <- %s)' % (kind, dtype, adt), rp,
+                                       {'category': cat, 'observed': obs, 'expected': exp}))
+    # ---- legacy interface
+    from odl.util.ufuncs import RAW_UFUNCS
+    for _ in range(1 if tier == 'quick' else 3):
+        for kind in ('tens', 'disc', 'pow'):
+            for dtype in ('float64', 'int64'):
+                for name in RAW_UFUNCS + ['sum', 'prod', 'min', 'max']:
+                    isint = np.dtype(dtype).kind in 'iu'
+                    if not isint and name in ('bitwise_and', 'bitwise_or', 'bitwise_xor', 'invert', 'left_shift',
+                                              'right_shift'):
+                        continue
+                    sd = rand_space_descr(rng, kind, dtype)
+                    shape = space_shape(sd)
+                    pos = name in ('power', 'left_shift', 'right_shift', 'floor_divide', 'remainder', 'mod', 'fmod',
+                                   'true_divide', 'divide', 'log', 'log2', 'log10', 'sqrt', 'reciprocal')
+                    ins = [('self', rand_data(rng, shape, dtype, pos))]
+                    spec = {'space': sd, 'ufunc': name, 'ins': ins, 'kwargs': {}}
+                    if name in ('sum', 'prod', 'min', 'max'):
+                        if kind != 'pow':
+                            c = rng.choice(['none', 'axis', 'keepdims', 'dtype'])
+                            if c == 'axis':
+                                spec['kwargs']['axis'] = rng.randrange(len(shape))
+                            elif c == 'keepdims':
+                                spec['kwargs'] = {'axis': rng.randrange(len(shape)), 'keepdims': True}
+                            elif c == 'dtype' and not isint:
+                                spec['kwargs']['dtype'] = 'float32'
+                    else:
+                        uf = getattr(np, name)
+                        if uf.nin == 2:
+                            c = rng.choice(['self', 'arr', 'scal'])
+                            if c == 'self':
+                                ins.append(('self', rand_data(rng, shape, dtype, pos)))
+                            elif c == 'arr':
+                                ins.append(('arr', rand_data(rng, shape, dtype, pos), dtype))
+                            else:
+                                ins.append(('scal', 2 if isint else 2.0))
+                        if uf.nout == 1 and rng.random() < 0.5:
+                            try:
+                                with np.errstate(all='ignore'):
+                                    rdt = uf(*[np.array(i[1], dtype=dtype) if i[0] != 'scal' else i[1] for i in ins]).dtype.name
+                            except Exception:
+                                rdt = None
+                            if rdt == dtype or (rdt is not None and kind != 'pow'):
+                                ok_ = rng.choice(['elem', 'arr', 'tensor'] if kind == 'disc' else ['elem', 'arr'])
+                                if kind == 'pow':
+                                    ok_ = 'elem'
+                                spec['out'] = {'kind': ok_, 'shape': shape, 'dtype': rdt}
+                    out.append(mk_legacy_probe(spec))
+    return out
 
 
 LEVEL_TEXT = 'partial'
